@@ -565,6 +565,10 @@ def _run_conc(case, res, log):
                 in_method[cur.idx] = True
             if kind_ == "line" and cache.lock.held and cache.lock.owner is cur:
                 res.probes.inc("conc_switch_inside_critical_section")
+            if kind_ == "line" and info and info[0] == "clone" and not (cache.lock.held and cache.lock.owner is cur):
+                # the counters are copied (both fields in one source line, below the granularity of the
+                # scheduler) while another thread may be changing them: the copy must be made under the lock
+                raise Violation("C17:unlocked-access", f"T{cur.idx}: the statistics are copied without holding the cache lock")
 
         sched = Scheduler(rng, strategy=cfg["strategy"], schedule=(case.get("schedule") or {}).get(str(ri)) if case.get("schedule") else None, step_cap=20000, on_step=on_step, log=log)
 
